@@ -638,6 +638,44 @@ def r13_single_parent_paths(idx, r):
         raise AnchorMissing("a __deepcopy__ override below ArmiObject")
 
 
+def r14_refusal_before_adoption(idx, r):
+    """An add/insert that refuses the child (raise) does so before it has adopted it: no path reaches a `raise` after the child was appended
+    to the child list (directly, through the base-class add, or through the owner's lookup tables).  A refusal after the adoption leaves a
+    child that the caller was told was not added."""
+    n = 0
+    for c in idx.subclasses(idx.cls(AO)):
+        for name in ("add", "insert"):
+            f = c.methods.get(name)
+            if f is None or not any(isinstance(x, ast.Raise) for x in walk_local(f.node)):
+                continue
+            child = f.params()[-1] if name == "insert" else f.params()[1]
+
+            def ev(nd, child=child, name=name):
+                if isinstance(nd, ast.Call):
+                    t = norm(nd.func)
+                    if t in ("self._children.append", "self._children.insert") or (call_attr(nd) in ("add", "insert") and (t.startswith("super().") or t.split(".")[-2:-1] == ["Composite"] or t.startswith("composites.Composite."))):
+                        return ["adopted"]
+                    if call_attr(nd) == "moveTo" and norm(nd.func.value) == child:
+                        return ["adopted"]
+                if isinstance(nd, (ast.Assign, ast.AugAssign)):
+                    for s_ in iter_stores(nd):
+                        if s_.kind == "subscript" and norm(s_.node.value).startswith("self."):
+                            return ["adopted"]
+                return []
+            fl = Flow(f.node, ev).run()
+            for x in walk_local(f.node):
+                if not isinstance(x, ast.Raise):
+                    continue
+                st = fl.state_before(x)
+                if st is None:
+                    continue
+                n += 1
+                r.require(st.get("adopted", (0, 0))[1] == 0, f"{c.name}.{name}:refuses-before-adopting", f, node=x,
+                          msg=f"`{norm(x)[:80]}` can be reached after the child was adopted: the caller is told the {name} failed, but the child stays in the child list / lookup tables")
+    if n < 3:
+        raise AnchorMissing("refusals in add/insert overrides below ArmiObject")
+
+
 def run(idx, chk):
     chk.explanation = (
         "C01: who may write Composite._children / .parent (frozen owners), pairing of parent/list/locator effects on every path of "
@@ -672,3 +710,5 @@ def run(idx, chk):
                  necessary="ring queries return the assemblies a naive walk over the current children returns")
     chk.run_rule("R01.13", "a re-charged assembly leaves the pool whenever it is there; ancestor search tests self first; deepcopy memo holds only the new object", lambda r: r13_single_parent_paths(idx, r), floor=3,
                  necessary="every object has at most one parent; copies share no node with the original; queries agree with a naive walk")
+    chk.run_rule("R01.14", "an add/insert that refuses the child raises before it adopted it", lambda r: r14_refusal_before_adoption(idx, r), floor=3,
+                 necessary="the child list and the parent pointers agree after any sequence of add/insert, including refused ones")
